@@ -3,6 +3,24 @@ import json, os, sys
 HERE = os.path.dirname(os.path.dirname(os.path.abspath(__file__)))
 
 CHECKS = {
+ "C01": dict(cat="translation_validation", ref="DESIGN.md 5.C01",
+   text="Differential execution of the two semantics on the same design and the same literal stimulus: the real convert() "
+        "output (text + $readmemh data files) is executed by /verif's own IEEE-1364 subset interpreter (dsim/vsim: LRM sizing/"
+        "signedness rules, stratified scheduler with seeded order of simultaneously active processes, NBA regions, memories) "
+        "and compared tick by tick, before every edge, with the real litex.gen.sim run of a second instance: every port, "
+        "register, comb target, memory read port and memory word, from time zero. Programs: grammar-generated fragments in the "
+        "sub-language where unbounded and context-width arithmetic agree by construction ('frag'), unrestricted fragments "
+        "guarded by a simulator-side monitor that ends a run where the two semantics legitimately part ('wild'), narrow comb "
+        "fragments swept over ALL inputs ('exh'), memories with every port mode/granularity/async/re/init in 1-2 clock domains "
+        "('mem'), and 36 real LiteX cores at seeded parameterisations under random stimulus ('corpus'); seeded clock-edge "
+        "interleavings, reset pulses, process orders. Translation validation per program and input sequence, not a proof of "
+        "the printer.",
+   note="Trusted base: dsim/vsim.py (ours) and dsim/taint.py (the monitor deciding which runs are outside the agreeing "
+        "sub-language; conservative). Values the text leaves undefined (no initialiser, uninitialised memory) are never "
+        "compared. Time zero uses the 'settle' policy and NBA glitches do not re-trigger processes (Verilator/synthesis "
+        "reading); the strict readings are listed findings C01-F6/F7. Other listed findings: C01-F5, F8, F9, F11, F12.",
+   tech="translation validation by deterministic co-simulation (real simulator vs own Verilog interpreter) with seeded process "
+        "order, clock-edge interleaving and reset-pulse injection"),
  "C02": dict(cat="exploration", ref="DESIGN.md 5.C02",
    text="Seeded signal sets (explicit hierarchical back-traces, related chains, overrides colliding with generated and with "
         "suffixed names, reserved words) named by the real build_signal_namespace/SignalNamespace under seeded request orders "
